@@ -4,10 +4,15 @@ bob.stringparser.IfExpressionParser, on the same strings.
 
   run_ifgrammar(ctx)  is called from props/c17.py:run()
 
-Three comparisons:
+Comparisons:
   (1) correspondence: `parse_if text` (vm_compute) = canonical dump of the object
-      tree the real parser returns (or None when it raises ParseError)
+      tree the real parser returns (or None when it raises ParseError), on hand
+      written nasty strings, rendered ASTs (random white space / parentheses),
+      token soups and mutated renderings
       -> ctx.tie_broken("C17-ifgrammar", ...) with a minimised string;
+      and the texts of Coq's own `render_if` (theorem parse_if_render) must be
+      parsed by the real parser to the rendered AST
+      -> ctx.tie_broken("C17-ifgrammar-render", ...);
   (2) direct oracle, independent of the model: an AST rendered with the minimal
       parentheses of the documented precedence table (bobpaths(7)) must come
       back from the real parser as exactly that AST
